@@ -1417,8 +1417,10 @@ package gocql
 
 //@ func (r *routingKeyInfoLRU) Remove
 //@   props C09
-//@   trusted forgets a failed entry (lru internals: C14)
+//@   requires r != nil && r.lru != nil
 //@   preserves_types preparedStatment routingKeyInfo inflightCachedEntry KeyspaceMetadata TableMetadata ColumnMetadata
+//@   ensures r.lru == old(r.lru)
+//@   ensures old(cache_bound(r.lru)) ==> cache_bound(r.lru)
 
 //@ func (s *Session) routingKeyInfo
 //@   props C09
